@@ -95,6 +95,10 @@ def to_expr(e, env, arrays=None):
         if name in CALLS:
             return ('call', CALLS[name], args)
         return ('call', f"c:{name}", args)
+    if k == "UnaryExprOrTypeTraitExpr":
+        return ('call', 'sizeof', (('sym', str(e.get("argType", {}).get("qualType", "?"))),))
+    if k == "StringLiteral":
+        return ('sym', 'str:' + str(e.get("value", ""))[:20])
     raise Undecided(f"C expression {k}")
 
 
